@@ -58,7 +58,14 @@ def repo_files(ctx):
 def streams(ctx):
     total = sum(len(ALPHABET) ** k for k in range(0, n_max(ctx) + 1))
     return [("alphabet", (total + BLOCK - 1) // BLOCK), ("files", len(repo_files(ctx))),
-            ("mutants", ctx.scale(300, 6000)), ("hand", len(HAND)), ("templates", (N_TEMPLATES + BLOCK - 1) // BLOCK)]
+            ("mutants", ctx.scale(300, 6000)), ("hand", len(HAND)), ("templates", (N_TEMPLATES + BLOCK - 1) // BLOCK),
+            ("exotic", ctx.scale(30, 400))]
+
+
+# seeded strings over characters that end or continue lines in unusual ways (CR, CRLF, form feed, vertical tab, NUL,
+# backslash-CRLF), tabs and non-ASCII letters, mixed with the keywords and quotes that steer the scanner
+EXOTIC = ("\r\n", "\r", "\t", "\f", "\v", "\x00", "\u00e9", "\u03bb", " ", "\\\r\n", "'''", '"""', "#", "def ", "class ", "x",
+          "\n", ":", "(", ")", "=", "'", '"', "\\", "0", "async ", "@", "lambda", "return ", "\ufeff", "\u2028")
 
 
 HAND = [
@@ -228,6 +235,15 @@ def run_case(ctx, P, stream, idx):
         P.case({"mutant_of": os.path.relpath(path, REPO), "text": src}, klass="mutants",
                sample={"mutant_of": os.path.relpath(path, REPO), "bytes": len(src), "head": src[:200]})
         run_one(P, src)
+    elif stream == "exotic":
+        r = ctx.rng(stream, idx)
+        last, seen = "", set()
+        for _ in range(BLOCK):
+            last = "".join(r.choice(EXOTIC) for _ in range(r.randint(2, 9)))
+            if last not in seen:
+                seen.add(last)
+                run_one(P, last)
+        P.bulk(len(seen), len(seen), klass="exotic", sample={"exotic_string": last})  # distinct within the block
     elif stream == "templates":
         lo, hi = idx * BLOCK, min(N_TEMPLATES, (idx + 1) * BLOCK)
         for i in range(lo, hi):
